@@ -10,6 +10,8 @@ pub mod c05;
 pub mod c06;
 pub mod c07;
 pub mod c11;
+pub mod c12;
+pub mod c15;
 pub mod c17;
 pub mod c19;
 
@@ -21,6 +23,8 @@ pub fn make(id: &str, run: &mut crate::run::Run) -> Option<Box<dyn Prop>> {
 		"C06" => Some(Box::new(c06::C06::new(run))),
 		"C07" => Some(Box::new(c07::C07::new(run))),
 		"C11" => Some(Box::new(c11::C11::new(run))),
+		"C12" => Some(Box::new(c12::C12::new(run))),
+		"C15" => Some(Box::new(c15::C15::new(run))),
 		"C17" => Some(Box::new(c17::C17::new(run))),
 		"C19" => Some(Box::new(c19::C19::new(run))),
 		"C05" => Some(Box::new(c05::C05::new(run))),
@@ -34,7 +38,7 @@ pub fn make_for_replay(id: &str, run: &mut crate::run::Run) -> Option<Box<dyn Pr
 	make(id, run)
 }
 
-pub const ALL: &[&str] = &["C01", "C02", "C03", "C04", "C05", "C06", "C07", "C11", "C17", "C19"];
+pub const ALL: &[&str] = &["C01", "C02", "C03", "C04", "C05", "C06", "C07", "C11", "C12", "C15", "C17", "C19"];
 
 /// (runs, max steps per run) per tier
 pub fn budget(id: &str, thorough: bool) -> (u64, usize) {
@@ -65,6 +69,8 @@ pub fn rule(id: &str) -> String {
 		"C17" => "seeded histories with ttl_blocks on sends and cutoffs rewritten on the wire to h-1, h, h+1, h+2, 0, u64::MAX, 1 relative to the height the receiving wallet last observed, many single-block mines and refreshes; a case is one receive/pay/finalize of a slate (step x cutoff relation x outcome) or one outstanding entry seen by a successful refresh (expired or not); non-trivial when a cutoff is present".into(),
 		"C19" => "seeded histories (all entry types, several accounts, cancelled / confirmed / outstanding entries) under a virtual clock that jumps forwards and backwards, so logs have equal timestamps, creation order != id order and confirmation before creation; after every few steps retrieve_txs is called with query arguments drawn field by field (absent / equal to a stored value / one below / one above), all sort fields and orders, limits 0,1,2,3,100, and look-ups by log id and slate id; a case is one query (set of fields present); non-trivial when the active account's log has >=2 entries that the query's fields discriminate".into(),
 		"C06" => "seeded histories (8-26 steps) bring 2-3 real wallets to a state; the generator's next natural wallet operation (init, lock, receive, finalize, invoice steps, cancel, refresh, scan, create account) is the target; from a directory snapshot it is run fault-free once (lists the persistence points visited: every LMDB batch commit pre/post incl. key-index bumps, stored-transaction file pre/post) and then once per point with a crash, once with a failing write, and for the stored-transaction file once per truncation length in {0,1,odd middle,len-1} (+12 sampled lengths in thorough); a case is one (pre-state digest, operation, point, fault kind / truncation length); non-trivial when the point was reached and the fault fired".into(),
+		"C12" => "seeded histories of every flow (sends, late locks, invoices, proofs, all wire encodings); after every step every file under every wallet directory (raw LMDB pages, stored transactions, seed files) and every emitted slate is searched for each seed (raw, hex, HEX, base64, JSON int array), each mnemonic, and sec_key / sec_nonce / initial_sec_key / initial_sec_nonce of every private context the simulator has read with observer privilege, in the same encodings; seed files are opened with right and wrong passwords (prefix, case, unicode, 300 chars, blank) through the wallet and through an independent PBKDF2-HMAC-SHA512(100)+ChaCha20-Poly1305 implementation; change_password is run with a crash / failing operation at every file-operation point and the written seed file cut to 0, 1, half, len-1 bytes; per wallet every public nonce and public excess on emitted slates is recorded against its slate id; a case is one scanned file or message / one password attempt / one lifecycle fault variant; non-trivial when a secret existed to look for, the password was wrong, or the fault fired".into(),
+		"C15" => "seeded histories of output-creating operations over several accounts (receive, change incl. multi-change, coinbase, invoice, build_output) with restarts, crashes and failing writes at LMDB commit / stored-tx points in between, and restores from seed followed by a scan; every output record ever committed is observed through the save hook (counted only when its batch commits) and keyed by (wallet, key path); a case is one committed output record or one (restore, account) next-path comparison".into(),
 		_ => "seeded histories".into(),
 	}
 }
